@@ -18,7 +18,7 @@ NAME = "fs"
 
 READ_FAULTS = ("undecodable", "vanish", "eacces_in", "eio_read")
 PRE_FAULTS = ("out_is_dir", "out_parent_is_file", "mkdir_eacces", "eacces_out")
-WRITE_FAULTS = ("enospc", "eio_write", "eio_close")
+WRITE_FAULTS = ("enospc", "eio_write", "eio_close", "io_write_fail")
 OTHER_FAULTS = ("mkdir_race", "crash", "interrupt", "scandir_eacces", "dump_enospc")
 
 
@@ -89,7 +89,7 @@ def _gen_faults(r, plan, paths, in_rel, out_rel, single):
     nf = r.choices([0, 1, 2, 3], [15, 50, 28, 7])[0]
     entry = plan["entry"]
     if entry == "io":
-        kinds = ["undecodable"]
+        kinds = ["undecodable", "io_write_fail", "io_write_fail"]
     elif entry == "file":
         kinds = ["undecodable", "out_is_dir", "vanish", "eacces_in", "eio_read", "enospc", "eio_write", "eio_close",
                  "eacces_out"]
@@ -136,6 +136,8 @@ def _gen_faults(r, plan, paths, in_rel, out_rel, single):
             f = {"kind": "eacces", "path": mp, "mode": "w", "nth": 1, "victim": victim}
         elif kind == "eio_read":
             f = {"kind": "eio_read", "path": victim, "at": r.choice([0, 1, r.randint(0, 400), r.randint(0, 60)])}
+        elif kind == "io_write_fail":
+            f = {"kind": "io_write_fail", "path": victim, "nth": r.randint(0, 8)}
         elif kind in ("enospc", "eio_write"):
             f = {"kind": kind, "path": mp, "at": r.choice([0, 1, r.randint(0, 400), r.randint(0, 80)]), "victim": victim}
         elif kind == "eio_close":
